@@ -3,13 +3,13 @@ CONSTANTS
  Known <- KnownTk
  NP = 2
  Groups <- TwoGroups
- Apis <- AllApis
- MaxItems = 2
- MaxReq = 1
- MaxEnv = 1
+ Apis <- DataApis
+ MaxItems = 1
+ MaxReq = 2
+ MaxEnv = 0
  Leasing = FALSE
  AutoSet <- BothAuto
- RichPerms = TRUE
+ RichPerms = FALSE
  FixMetaAcl = TRUE
  DevNoAclOn <- NoApis
  DevGateAfterAppend = "none"
@@ -18,11 +18,11 @@ CONSTANTS
  DevStaleOwnedOnSessionReplace = FALSE
  DevLeaseErrMisindexed = FALSE
  MidOn = FALSE
- DevAclCacheNoAction = FALSE
+ DevAclCacheNoAction = TRUE
  DevLateAcquireAfterRelease = FALSE
  DevReacquireUnconditional = FALSE
 INIT Init
 NEXT Next
-INVARIANTS C24_NoEffect C24_AuthError C24_NoLeak C19_AckOnlyIfHeld C19_NoWriteUnlessHeld C19_RefusalCode C19_NotLeaderForOtherOwner OwnsImpliesKey KnownHavePartitions Exclusive
+INVARIANTS C24_NoEffect C24_AuthError C24_NoLeak
 VIEW View
 CHECK_DEADLOCK FALSE
